@@ -39,7 +39,8 @@ def param_pairs(rng):
 	       ((k, p), (rng.choice([x for x in ks if x != k]), rng.choice([x for x in ps if x != p])), 'both-differ'),
 	       ((k, p), (k, p + rng.choice('ACGT')), 'prefix-longer'),
 	       ((k, p), (k, p.lower()), 'prefix-case-only'),
-	       ((k, p), (k, p), 'equal')]
+	       ((k, p), (k, p), 'equal'),
+	       ((k, p), (11, 'ATGAC'), 'other-side-is-the-default')]   # explicit options equal to the built-in defaults are still explicit
 	return out
 
 
@@ -264,7 +265,7 @@ def run_shard(sh, ctx):
 def finalize(merged, tier, seed, inconclusive):
 	c = merged['counters']
 	need = ['mismatch:query -s', 'mismatch:dist -k/-p == --qs, --rs differs', 'mismatch:dist -k/-p == --qs, --use-db differs', 'mismatch:dist --qs --rs', 'mismatch:dist --qs --use-db', 'mismatch:dist -k/-p + --qs / ref files', 'mismatch:dist -k/-p + --rs / query listfile',
-	        'mismatch:dist -k without -p', 'mismatch:signatures create --db-params + -k/-p', 'relation:k-differs', 'relation:prefix-differs', 'relation:both-differ',
+	        'mismatch:dist -k without -p', 'mismatch:signatures create --db-params + -k/-p', 'relation:k-differs', 'relation:prefix-differs', 'relation:both-differ', 'relation:other-side-is-the-default',
 	        'control:dist --qs --rs', 'control:dist query files + --use-db (inferred)', 'control:query files', 'control:signatures create --db-params', 'control:tree -s']
 	for n in need:
 		if c.get(n, 0) == 0:
